@@ -5,3 +5,5 @@ open HmcVerif.C11
 #print axioms valid_write_raises_exists
 #print axioms no_open_handle
 #print axioms next_valid_run_succeeds
+#print axioms stepAt_frame
+#print axioms no_consent_no_change_any_path
